@@ -42,6 +42,13 @@ func tarStamps(container string, es []decode.Entry) []stamp {
 	var res []stamp
 	for _, e := range es {
 		res = append(res, stamp{"tar-member", container + ":" + e.Name, e.MTime})
+		// access and change times a header carries (GNU header fields, or PAX records merged by the reader)
+		if e.ATime != 0 {
+			res = append(res, stamp{"tar-member-atime", container + ":" + e.Name + ":atime", e.ATime})
+		}
+		if e.CTime != 0 {
+			res = append(res, stamp{"tar-member-ctime", container + ":" + e.Name + ":ctime", e.CTime})
+		}
 		for _, k := range []string{"mtime", "atime", "ctime"} {
 			v, ok := e.PAX[k]
 			if !ok {
